@@ -381,6 +381,10 @@ pub struct Ctx<F: Fam> {
     pub focus: Option<Prop>,
     /// first failure of a work/progress oracle that the focused property does not own
     pub deferred: Option<Fail>,
+    /// a drain is being forgotten and its allowed leaks are not registered yet
+    pub forget_in_flight: bool,
+    /// value of `panic_count()` when the case started
+    pub panics_at_start: u64,
 }
 
 pub const FULL_EVERY_SMALL: usize = 1;
@@ -438,6 +442,8 @@ impl<F: Fam> Ctx<F> {
             arm: None,
             probe_key: F::K::mk(u32::MAX),
             allow_leak: BTreeSet::new(),
+            forget_in_flight: false,
+            panics_at_start: panic_count(),
             big: false,
             since_full: [0, 0],
             r: griddle::verif::R,
@@ -1331,6 +1337,50 @@ impl<F: Fam> Ctx<F> {
             }
         }
         Ok(self.stats)
+    }
+
+    /// C06 focus only. A failure owned by another property ended a panic-free history: the
+    /// collections are torn down all the same, and an element that is then still alive (or was
+    /// dropped twice) is C06's own failure, which the earlier one would otherwise hide. Returns
+    /// None when nothing of C06's shows, or when the premise (no panic, no forgotten drain whose
+    /// leaks are not registered yet) does not hold.
+    pub fn salvage_teardown(mut self, first: &Fail) -> Option<Fail> {
+        if !F::K::TRACKED || self.post_fault || self.forget_in_flight || panic_count() != self.panics_at_start || first.oracle.contains("panic") {
+            std::mem::forget(self);
+            return None;
+        }
+        self.op_name = "teardown";
+        let had_errors = ledger_has_errors();
+        let vh = VH::default();
+        let m0 = std::mem::replace(&mut self.slots[0].map, Map::<F>::with_hasher(vh));
+        let m1 = std::mem::replace(&mut self.slots[1].map, Map::<F>::with_hasher(vh));
+        let s0 = std::mem::replace(&mut self.sets[0].set, Set::<F>::with_hasher(vh));
+        let s1 = std::mem::replace(&mut self.sets[1].set, Set::<F>::with_hasher(vh));
+        let prevq = panic_quiet(true);
+        let r = catch_unwind(AssertUnwindSafe(move || {
+            drop(m0);
+            drop(m1);
+            drop(s0);
+            drop(s1);
+        }));
+        panic_quiet(prevq);
+        let _ = take_last_panic();
+        let mut out = None;
+        if r.is_ok() && !had_errors {
+            let errs = ledger_take_errors();
+            let dd: Vec<&String> = errs.iter().filter(|e| e.contains("double-drop") || e.contains("drop-of-unknown")).collect();
+            let live = ledger_live_ids();
+            let probe_id = self.probe_key.id();
+            let stray: Vec<u32> = live.into_iter().filter(|id| *id != probe_id && !self.allow_leak.contains(id)).collect();
+            let after = format!("after the case ended at op#{} {} with a failure of another property ({}: {})", first.op_index, first.op_name, first.oracle, first.msg.chars().take(160).collect::<String>());
+            if let Some(e) = dd.first() {
+                out = Some(self.mkfail(vec![C06], "ledger-at-salvage", format!("dropping the collections {}: {}", after, e), String::new()));
+            } else if !stray.is_empty() {
+                out = Some(self.mkfail(vec![C06], "leak-at-salvage", format!("{} object(s) never dropped once all collections were gone, e.g. ids {:?}, {}", stray.len(), &stray[..stray.len().min(8)], after), String::new()));
+            }
+        }
+        std::mem::forget(self);
+        out
     }
 }
 
